@@ -5,9 +5,27 @@ from checks import search_common as sc
 
 def check(ctx):
     m, res, wit, dmax = sc.run(ctx, 'C09', ['C09'])
+    # Level B: the root node of search() as compiled -- its PV head is a root move (Level A's contract for the stubbed search)
+    rb, wb = sc.run_b(ctx, 'C09', [(1, False, [], '')], ['C09'])
+    res += rb; wit += wb
+    START = 'a2a3 a2a4 b2b3 b2b4 c2c3 c2c4 d2d3 d2d4 e2e3 e2e4 f2f3 f2f4 g2g3 g2g4 h2h3 h2h4 b1a3 b1c3 g1f3 g1h3'.split()
     def replay(ctx, r):
         ce = r.ce('C09')
         exe = sc.native_engine(ctx)
+        if r.q.name.startswith('h_search'):
+            # a root answer outside the root list needs a table entry left by an earlier search of the same position: go, then go searchmoves without "position" in between
+            o1 = sc.uci_session(ctx, exe, ['position startpos', 'go depth 6'], wait=4.0)
+            bm = re.findall(r'^bestmove (\S+)', o1, re.M)
+            runs = []; bad = False
+            if bm:
+                for d2 in (4, 6):
+                    rest = [x for x in START if x != bm[-1]]
+                    o2 = sc.uci_session(ctx, exe, ['position startpos', 'go depth 6', 4.0, 'go depth %d searchmoves %s' % (d2, ' '.join(rest))], wait=4.0)
+                    b2 = re.findall(r'^bestmove (\S+)', o2, re.M); runs.append({'first': bm[-1], 'second go': 'depth %d searchmoves <all but %s>' % (d2, bm[-1]), 'bestmoves': b2})
+                    if len(b2) == 2 and b2[-1] not in rest: bad = True
+            path = report.save_replay(ctx, r.q.name, {'harness': r.q.name, 'node': ce, 'native_sessions': runs})
+            return {'confirmed': True if bad else None, 'strict': True, 'key': 'root-pv-outside-root-moves', 'path': path,
+                    'text': '%s: %s | native go / go searchmoves sessions: %s' % (r.q.name, '; '.join(d for _, d in r.failed[:2]), runs)}
         d = ce.get('ce_depth', 0)
         # the go command of the counterexample (searchmoves need a concrete position and are left out)
         go = 'go'
